@@ -315,6 +315,17 @@ class Driver:
                     st['result'] = ('done',)
                 except asyncio.TimeoutError:
                     st['result'] = ('pending',)
+                for act in spec.get('late_actions', ()):
+                    # legal no-ops for a Reactive Streams application once the stream has terminated
+                    await _pace(act.get('wait'))
+                    if sub.subscription is None:
+                        break
+                    if act['do'] == 'request':
+                        world.log('app_late_request', who=who, iid=iid, n=act['n'])
+                        sub.subscription.request(act['n'])
+                    else:
+                        world.log('app_late_cancel', who=who, iid=iid)
+                        sub.subscription.cancel()
         except Exception as e:
             st['result'] = ('call-raised', '%s: %s' % (type(e).__name__, str(e)[:120]))
             world.log('call_raised', who=who, iid=iid, err=repr(e)[:120])
@@ -392,21 +403,9 @@ class Pair:
         return all(q.empty() for q in link.queues.values())
 
     def instrument_queue(self):
-        """Record, per endpoint, the order in which frames enter its send path (C05)."""
-        from . import libcodec
-        world = self.world
+        """Record, per endpoint, the order in which frames enter its send path (C05, C08)."""
         for side in 'cs':
-            ep = self.ep(side)
-            for name in ('send_frame', 'send_priority_frame'):
-                orig = getattr(ep, name)
-
-                def wrapper(frame, _orig=orig, _side=side, _name=name):
-                    d = libcodec.snapshot(frame)
-                    world.events.append({'t': world.now(), 'kind': 'queue', 'ep': _side, 'f': d,
-                                         'priority': _name == 'send_priority_frame', 'i': len(world.events)})
-                    return _orig(frame)
-
-                setattr(ep, name, wrapper)
+            instrument_endpoint_queue(self.world, self.ep(side), side)
 
     def open_streams(self, side):
         ep = self.ep(side)
@@ -434,6 +433,20 @@ class Pair:
         except Exception:
             pass
         self.link.stop()
+
+
+def instrument_endpoint_queue(world, ep, side):
+    from . import libcodec
+    for name in ('send_frame', 'send_priority_frame'):
+        orig = getattr(ep, name)
+
+        def wrapper(frame, _orig=orig, _name=name):
+            d = libcodec.snapshot(frame)
+            world.events.append({'t': world.now(), 'kind': 'queue', 'ep': side, 'f': d,
+                                 'priority': _name == 'send_priority_frame', 'i': len(world.events)})
+            return _orig(frame)
+
+        setattr(ep, name, wrapper)
 
 
 def trace_excerpt(world, limit=80, iid=None):
